@@ -25,6 +25,9 @@ type PropConfig struct {
 type Ledger struct {
 	Property    string   `json:"property"`
 	Obligations []string `json:"obligations"`
+	// calls without a contract (result unconstrained, heap havocked) that each function already made on
+	// the unchanged tree; a call of this kind that appears later is new code the contracts do not cover
+	Unmodelled map[string][]string `json:"unmodelled,omitempty"`
 }
 
 type KnownFinding struct {
@@ -229,7 +232,14 @@ func runProperty(eng *Engine, verifDir, prop, tier string, updateLedger, verbose
 			}
 		}
 		os.MkdirAll(filepath.Dir(ledgerPath), 0o755)
-		lb, _ := json.MarshalIndent(Ledger{Property: prop, Obligations: ok}, "", " ")
+		um := map[string][]string{}
+		for _, fv := range fvs {
+			if len(fv.unmodelled) > 0 {
+				um[fv.short] = sortedKeys(fv.unmodelled)
+			}
+		}
+		ledger.Unmodelled = um
+		lb, _ := json.MarshalIndent(Ledger{Property: prop, Obligations: ok, Unmodelled: um}, "", " ")
 		os.WriteFile(ledgerPath, append(lb, '\n'), 0o644)
 		fmt.Printf("ledger %s: %d obligations\n", ledgerPath, len(ok))
 		inLedger = map[string]bool{}
@@ -271,6 +281,24 @@ func runProperty(eng *Engine, verifDir, prop, tier string, updateLedger, verbose
 			}
 			if len(opaque) > 0 {
 				undecided = append(undecided, fmt.Sprintf("%s (%s reads the package-level variable %s, which no contract mentions)", n, g.FV.short, opaque[0]))
+				continue
+			}
+		}
+		if st != "unsat" {
+			// a library call without an assumed contract that the function did not make on the unchanged
+			// tree: new code outside the contracts' reach
+			known := map[string]bool{}
+			for _, k := range ledger.Unmodelled[g.FV.short] {
+				known[k] = true
+			}
+			var fresh []string
+			for _, k := range sortedKeys(g.FV.unmodelled) {
+				if !known[k] {
+					fresh = append(fresh, k)
+				}
+			}
+			if len(fresh) > 0 && len(g.FV.uncontracted) == 0 {
+				undecided = append(undecided, fmt.Sprintf("%s (%s now calls %s, for which there is no contract)", n, g.FV.short, fresh[0]))
 				continue
 			}
 		}
